@@ -17,4 +17,13 @@ CHECKS = {
               'alphabet-pair sweeps plus random strings.'),
         note=COMMON_NOTE + 'Hand transcription of the 3GPP table (Spec/Gsm0338.lean, tools/spec/gsm.py). Not modelled: TypeError for non-str input, exception arguments.',
         technique='Lean 4 theorems (induction on the text + decide +kernel over whole tables) on a model with regenerated tables; differential correspondence'),
+    'C11': dict(
+        text=('Proof. Props/C11.lean: the Python pack loop (index/count/shift, with its array reads) equals the 3GPP '
+              'packing stated as change of radix (octets = base-256 digits of the septets read as a base-128 number) '
+              'for every septet list; the unpack loop equals the inverse radix change for every octet string; '
+              'unpack(pack s) = s plus one zero septet exactly when |s| = 7 mod 8; text round trip in every decoder '
+              'mode with the single tolerated trailing commercial-at. Tied to codec.py by all septet pairs at all 8 '
+              'alignments, all lengths 0..64, extension characters at every offset, random texts and octet strings.'),
+        note=COMMON_NOTE + 'Spec/Packing.lean states 3GPP TS 23.038 6.1.2.1.1 as a radix change (hand-written). int(x/8) float division modelled as integer division.',
+        technique='Lean 4 theorems (loop invariant by induction, 7-way case split + omega for the bit arithmetic); differential correspondence'),
 }
